@@ -19,6 +19,10 @@ columns in the order bin1_id, bin2_id, count); trim if `nnz == 0`; `write_indexe
 `write_info` (`grp.attrs.update(info)`, the only place the `format` attribute is written).
 Everything before `write_pixels` happens before the first chunk is pulled (the validator is chained
 lazily with `map`).
+Options: `write_info` runs `json.dumps(metadata)` BEFORE `attrs.update` (`Cfg.infoOk = false`: the step raises
+TypeError and writes nothing); `_set_h5opts` rejects an unknown storage option on entry of `create()`, before any file
+is opened (`optsPre`, `unorderedPreBadOpts`).  The other keyword options (assembly, extra value columns, dtypes other
+than the count range, valid h5opts) do not change the step list.
 -/
 namespace Cooler.CreateSteps
 
